@@ -237,6 +237,11 @@ REQUIRED_LABELS = {"irregular-spacing": 0.1, "long-date-item": 0.1, "multi-line-
                    "sub-directory": 0.1}
 
 
+def sample_view(case):
+    return "\n".join(f"--- {rel}\n{P.render(pg, case['today'])[0]}" for rel, pg in case["dir"].items()) + \
+        f"\nthen: db create, {case['more']}, counters at chain position {case.get('counter_pos')}"
+
+
 def parts(tier):
     quick = tier == "quick"
     return [HypPart(name="create", check=check, strategy=_case,
